@@ -1,5 +1,5 @@
 //@unit C11_sweeploop
-//@props C11 C01 C12
+//@props C11 C01 C12 C02
 //@safetyprops C14
 //@desc ClipperBase::ExecuteInternal, the sweep's main loop, unbounded in the number of scanlines (one loop contract; the two `while (PopHorz(e)) DoHorizontal(*e);` loops are each cut out and replaced by one stub call, R18). The clip type, fill rule and tree flag are stored and Reset() runs before anything else; ClipType::NoClip does nothing further and reports success (C11: NoClip yields empty solutions), and so does an empty scanline list; otherwise every scanbeam goes through the phases in this order and no other: local minima of the bottom scanline into the AEL -> pending horizontals -> horizontal segments converted to joins and the segment list CLEARED (only when there are any) -> bot_y_ = bottom scanline -> next scanline popped (the loop ends when there is none) -> intersections up to it -> top of scanbeam at it -> pending horizontals; each phase gets the scanline it belongs to; the loop also ends as soon as `succeeded_` is false; horizontal joins are processed once at the end iff the sweep succeeded; the result is `succeeded_`. Every iteration consumes one scanline (decreases clause).
 #include "vf.h"
